@@ -12,7 +12,7 @@ pub fn def() -> PropDef {
         nontrivial,
         functional: true,
         post: super::no_post,
-        rule: "source strings up to 4 KiB: random characters (ASCII-biased with multi-byte code points, quotes, backslashes, line breaks), random sequences of CEL tokens, grammar-generated valid expressions (the typed, untyped and reference generators, nesting to 32) and single-token insert / delete / replace / truncate mutations of valid ones, and erroneous lines padded to every length up to 300 characters (and around 1 KiB) with 1- to 4-byte characters; compiled by Program::compile; compared with the model: accept or reject and, on accept, the tree; predicate on the implementation: no panic, no hang (a watchdog reports a case running longer than 20 s), a rejection carries at least one error, every error renders to non-empty text, 1 <= line <= number of lines and 1 <= column <= length of that line in characters + 1, and an accepted text is also one complete expression for the grammar model; non-trivial = the text contains at least two tokens; distinct = distinct text",
+        rule: "source strings up to 4 KiB: random characters (ASCII-biased with multi-byte code points, quotes, backslashes, line breaks), random sequences of CEL tokens, grammar-generated valid expressions (the typed, untyped and reference generators, nesting to 32) and single-token insert / delete / replace / truncate mutations of valid ones, every macro name with 0-5 arguments in receiver and global style, and erroneous lines padded to every length up to 300 characters (and around 1 KiB) with 1- to 4-byte characters; compiled by Program::compile; compared with the model: accept or reject and, on accept, the tree; predicate on the implementation: no panic, no hang (a watchdog reports a case running longer than 20 s), a rejection carries at least one error, every error renders to non-empty text, 1 <= line <= number of lines and 1 <= column <= length of that line in characters + 1, and an accepted text is also one complete expression for the grammar model; non-trivial = the text contains at least two tokens; distinct = distinct text",
         exhaustive_note: "random sample plus a fixed catalogue of malformed texts",
     }
 }
@@ -117,6 +117,25 @@ pub fn generate(tier: Tier, rng: &mut Rng) -> Vec<Case> {
         "[\"éééééééééé\"].all(1,\n2)", "\"é\" + has(a)", "x.map(\n  1, 2)", "\"ééé\" +", "é é é", "\"\u{1F431}\" + + 1", "'a\nb'", "1 +\n\n+", "a\r\n+\r\n", "\u{feff}a",
     ] {
         push(src.to_string(), "catalogue");
+    }
+    // macros with every number of arguments in both call styles (the expanders see them all;
+    // a wrong count must be a positioned error or an ordinary call, never a panic)
+    for name in ["has", "all", "exists", "exists_one", "existsOne", "map", "filter"] {
+        for n in 0..=5usize {
+            let args: Vec<String> = (0..n).map(|i| match i { 0 => "x".to_string(), 1 => "x > 1".to_string(), 2 => "x * 2".to_string(), 3 => "m.f".to_string(), _ => "1".to_string() }).collect();
+            let a = args.join(", ");
+            push(format!("[1, 2, 3].{name}({a})"), "macro-arity");
+            push(format!("{name}({a})"), "macro-arity");
+            push(format!("m.{name}({a}) || false"), "macro-arity");
+            push(format!("[[1]].map(y, y.{name}({a}))"), "macro-arity");
+            // a non-identifier where the iteration variable belongs
+            if n >= 1 {
+                let b = std::iter::once("x.y".to_string()).chain(args.iter().skip(1).cloned()).collect::<Vec<_>>().join(", ");
+                push(format!("[1, 2, 3].{name}({b})"), "macro-arity");
+                let c = std::iter::once("'éé' + 1".to_string()).chain(args.iter().skip(1).cloned()).collect::<Vec<_>>().join(", ");
+                push(format!("['ääää'].{name}({c})"), "macro-arity");
+            }
+        }
     }
     // long lines: the erroneous line is padded with 1-, 2-, 3- and 4-byte characters so that every
     // byte offset up to a few hundred (and around 1 KiB) is, in some case, the middle of a character
